@@ -735,6 +735,16 @@ func (x *Exec) RunAsm(p *AsmProg, st *AsmState, hooks AsmHooks, maxSteps int) st
 				}
 			}
 			x.notEncoded("asm: raw data %s $%d in the instruction stream", op, in.F.O)
+		case op == "MULQ":
+			// unsigned RDX:RAX = RAX * operand; the high half is exact through a 128-bit product
+			d := x.asmTerm(x.asmGet(p, st, &in.F, 8))
+			lo := x.asmTerm(x.asmReg(st, "AX"))
+			wide := s.Mul(s.ZExt(lo, 128), s.ZExt(d, 128))
+			st.R["AX"] = s.Extract(wide, 63, 0)
+			hi := s.Extract(wide, 127, 64)
+			st.R["DX"] = hi
+			ovf := s.Ne(hi, x.c64(0))
+			st.fl = asmFlags{cf: ovf, of: ovf, zf: x.newBoolJunk(), sf: x.newBoolJunk(), pf: x.newBoolJunk()}
 		case op == "DIVQ":
 			// unsigned divide RDX:RAX by the operand; only the RDX == 0 form is emitted (hash % n)
 			d := x.asmTerm(x.asmGet(p, st, &in.F, 8))
